@@ -49,8 +49,9 @@ func c01Profiles(quick bool) []*bworld.Profile {
 	}
 	uni := base
 	uni.Name = "c01-uni"
+	uni.WFail = true /* A stream may also end because writing to it fails. */
 	uni.Starts = []bworld.StartSpec{
-		{Kind: "in", Key: "k", Max: 2}, {Kind: "out", Key: "k", Max: 2},
+		{Kind: "in", Key: "k", WKind: 2, Max: 2}, {Kind: "out", Key: "k", Max: 2},
 		{Kind: "in", Key: "kk", Max: 1}, {Kind: "out", Key: "kk", Max: 1},
 		{Kind: "in", Key: "", Max: 1}, {Kind: "out", Key: "", Max: 1},
 	}
